@@ -35,6 +35,11 @@ def run(prog, chk):
     geomalg.check_sites(prog, chk, "C18")
     geomalg.check(prog, chk, "C18", floor=4)
     from props import C10
+    import props.C15 as _C15
+    _C15.reuse_scope_encloses_instance(prog, chk)
+    _C15.reuse_reads_evaluated_element(prog, chk)
+    from props import C17 as _C17
+    _C17.depth_pairing(prog, chk)  # a failed attempt (template not registered yet) must not leak a depth level: later reuses would hit the limit
     C10.retry_progress(prog, chk)  # a template in a <specs> block written after its <reuse> is found on the retry: every success counts as progress
 
 
